@@ -6,6 +6,7 @@ From Coq Require Import List Arith Lia Bool PeanoNat String.
 Import ListNotations.
 Notation length := List.length.
 From SP Require Import Skel Gen Expected NetA Inv Pres Dead Top Ghost GhostPres NetTop.
+From SP Require Port.
 From SP Require WfModel AuditModel.
 
 (* T1: the code shape the transition system was written against *)
@@ -101,6 +102,35 @@ Theorem C04_reference_evaluator_zips : forall (A : Type) (d : A) (n : nat) (cols
   nth k (WfModel.transpose_n d n cols) [] = map (fun col => nth k col d) cols.
 Proof. exact @AuditModel.transpose_nth. Qed.
 
+(* fan-in of several upstreams into one port (Port.v: InPort.Send from every remote, the shared bounded channel,
+   CloseConnection, the receiver): for every number of upstreams, all stream lengths, every buffer size >= 1 and every
+   schedule -- what the receiver holds from each upstream is, in that upstream's order, a prefix of what it sends, nothing
+   else is received, at most cap items wait ... *)
+Theorem C04_port_merge : forall (c : Port.cfg), 1 <= Port.cap c -> 1 <= Port.ns c ->
+  forall l s, Port.run c (Port.init c) l = Some s ->
+  (forall r, r < Port.ns c -> Port.from r (Port.hist s) = firstn (Port.rcv s r) (Port.plan c r)) /\
+  (forall r, Port.ns c <= r -> Port.from r (Port.hist s) = []) /\ (Port.queued c s <= Port.cap c).
+Proof. exact Port.merge_is_orderly. Qed.
+
+(* ... the port closes exactly when its last upstream closed, and an upstream closes only after its last send ... *)
+Theorem C04_port_closes_with_last : forall (c : Port.cfg), 1 <= Port.cap c -> 1 <= Port.ns c ->
+  forall l s, Port.run c (Port.init c) l = Some s ->
+  (Port.closed s = true <-> forall r, r < Port.ns c -> Port.opn s r = false) /\
+  (forall r, r < Port.ns c -> Port.opn s r = false -> Port.sent s r = List.length (Port.plan c r)).
+Proof. exact Port.closes_with_last. Qed.
+
+(* ... once the receiver has seen the port closed it holds from every upstream exactly what that upstream sent: every item
+   exactly once -- none lost, none duplicated ... *)
+Theorem C04_port_complete : forall (c : Port.cfg), 1 <= Port.cap c -> 1 <= Port.ns c ->
+  forall l s, Port.run c (Port.init c) l = Some s -> Port.seen s = true ->
+  forall r, r < Port.ns c -> Port.from r (Port.hist s) = Port.plan c r.
+Proof. exact Port.complete_when_seen. Qed.
+
+(* ... and until then some step is always possible (streams longer than the buffer do not block the merge) *)
+Theorem C04_port_progress : forall (c : Port.cfg), 1 <= Port.cap c -> 1 <= Port.ns c ->
+  forall l s, Port.run c (Port.init c) l = Some s -> Port.seen s = false -> exists a, Port.step c s a <> None.
+Proof. exact Port.port_progress. Qed.
+
 (* non-vacuity: the diamond 0 -> {1,2} -> 3 with a 2-item source and capacity 1 is a well-formed configuration *)
 Theorem C04_nonvacuous : wf dia (fun _ => 2).
 Proof. exact dia_wf. Qed.
@@ -112,4 +142,8 @@ Print Assumptions C04_complete.
 Print Assumptions C04_deterministic.
 Print Assumptions C04_zip_equation.
 Print Assumptions C04_reference_evaluator_zips.
+Print Assumptions C04_port_merge.
+Print Assumptions C04_port_closes_with_last.
+Print Assumptions C04_port_complete.
+Print Assumptions C04_port_progress.
 Print Assumptions C04_nonvacuous.
